@@ -13,7 +13,7 @@ ALPHA_A = ["0", "1", "a", "b", "c", "r", "p", ".", "-", "_", "+", "!", "v"]
 LOOKALIKES = ["ſ", "K", "İ", "ı"]
 SUFFIX_ALPHA = list("019abcdeilnoprstvw.-_+!") + ["ſ", "K"]
 PREFIXES = ["1", "1.0", "1.0a", "1.0.post", "1.0+", "1!1", "1.0rc1", "1.0.dev", "1.0-", "1.0+a.", "1.0pre", "1.0.po", "1.0re", "v1.0a1.post1.de"]
-EDIT_CHARS = list("019abcprv.-_+!") + ["\n", " ", "ſ", "K", "İ", "１", "٣", "A", "Z", "x", "\t", "é"] + list("=*~^<>,;:@#$%&()[]{}|\\/'\"`?") + ["\r", "\x0b", "\x1f", "\x7f", "\u00a0", "\ufeff", "\u200b"]
+EDIT_CHARS = list("019abcprv.-_+!") + ["\n", " ", "ſ", "K", "İ", "１", "٣", "A", "Z", "x", "\t", "é"] + list("=*~^<>,;:@#$%&()[]{}|\\/'\"`?") + ["\r", "\x0b", "\x1f", "\x7f", "\u00a0", "\ufeff", "\u200b", "\x01", "\x02", "\x08", "\x0e", "\x10", "\x1b", "\x7f"]
 MINIMUMS = (20000, 500)
 BATCH = 10000
 
@@ -24,8 +24,13 @@ except Exception:  # pragma: no cover
     _PV = None
 
 
+from ..refs.sanitize import _WS as _WHITE
+
+
 def in_domain(s):
-    return s == s.strip() and "\x00" not in s
+    """no surrounding white space: Unicode White_Space and, to be on the safe side, what Python's strip() adds to it (U+001C..1F); other control
+    characters are not white space under any definition and stay in the domain"""
+    return s == s.strip() and not (s and (s[0] in _WHITE or s[-1] in _WHITE)) and "\x00" not in s
 
 
 def judge(s, accepted, r):
@@ -267,6 +272,7 @@ def run(ctx):
     # affixes around valid versions, judged against the grammar: a `v` prefix is part of it, nothing else is (surrounding whitespace is outside the domain)
     valid0 = [s_ for s_ in rand if ref.parse(s_) is not None and not s_.lower().startswith("v")][:150]
     edges += [pre + s_ for s_ in valid0 for pre in ("v", "V", "vv", "v.", "v-", "version", "=", "==", "~=", ">=", "^", "~", "\ufeff", "r", "ver", "v!", "!")]
+    edges += [c_ + s_ for s_ in valid0[:60] for c_ in ("\x01", "\x08", "\x0e", "\x1b", "\x7f", "\x10")] + [s_ + c_ for s_ in valid0[:60] for c_ in ("\x01", "\x02", "\x0f", "\x1a", "\x1b", "\x7f")]
     edges += [s_ + suf for s_ in valid0 for suf in (".", "+", "-", "_", "!", ".*", ".x", ",", ";", "v", "\u200b", "\x00"[:0] + "\x7f", "+.", "+a.", ".post", ".dev", "a", "rc")]
     res2 = core.pmap(work_list, [(ctx.bins, l) for l in core.split_even(rand, 16) + [edges]])
     for r in res2:
